@@ -524,6 +524,48 @@ def ev(e, env, funcs=None):
                 if len(e.args) == 2:
                     return ev(e.args[1], env, funcs)
             raise NotClosed('next')
+        if isinstance(e.func, ast.Name) and e.func.id == 'sorted' and len(e.args) == 1 and e.keywords and 'sorted' not in env \
+                and all(k.arg in ('key', 'reverse') for k in e.keywords):
+            # sorted(seq, key=lambda x: <closed expression of x>, reverse=<constant>): stable, as in the program
+            seq_ = model_seq(ev(e.args[0], env, funcs))
+            kw_ = {k.arg: k.value for k in e.keywords}
+            if not isinstance(seq_, (tuple, list)):
+                raise NotClosed('sorted')
+            keyf = None
+            if 'key' in kw_:
+                lam = kw_['key']
+                if not (isinstance(lam, ast.Lambda) and len(lam.args.args) == 1 and not lam.args.defaults):
+                    raise NotClosed('sorted key')
+                an_ = lam.args.args[0].arg
+
+                def keyf(item, lam=lam, an_=an_):
+                    e2 = dict(env)
+                    e2[an_] = item
+                    return ev(lam.body, e2, funcs)
+            rev_ = bool(ev(kw_['reverse'], env, funcs)) if 'reverse' in kw_ else False
+            return tuple(sorted(seq_, key=keyf, reverse=rev_))
+        if isinstance(e.func, ast.Name) and e.func.id == 'dict' and 'dict' not in env and len(e.args) <= 1:
+            # dict(<closed pairs>) / dict(k=v, ..): a closed table
+            pairs_ = []
+            if e.args:
+                src_ = ev(e.args[0], env, funcs)
+                if isinstance(src_, FrozenDict):
+                    pairs_ = list(src_.items())
+                else:
+                    src_ = model_seq(src_)
+                    if not (isinstance(src_, (tuple, list)) and all(isinstance(p_, tuple) and len(p_) == 2 for p_ in src_)):
+                        raise NotClosed('dict')
+                    pairs_ = list(src_)
+            for k in e.keywords:
+                if k.arg is None:
+                    raise NotClosed('dict **')
+                pairs_.append((k.arg, ev(k.value, env, funcs)))
+            return FrozenDict(pairs_)
+        if isinstance(e.func, ast.Name) and e.func.id == 'reversed' and 'reversed' not in env and len(e.args) == 1 and not e.keywords:
+            seq_ = model_seq(ev(e.args[0], env, funcs))
+            if isinstance(seq_, (tuple, list, str)):
+                return tuple(reversed(seq_))
+            raise NotClosed('reversed')
         if isinstance(e.func, ast.Name) and e.func.id == 'isinstance' and len(e.args) == 2 and not e.keywords:
             # decided for scalar types only: a closed value that is a text / number / None against str, int, float, bool, bytes
             # (a tuple stands for a list or a tuple here, a model for an object of the program: neither is one of those)
@@ -587,9 +629,18 @@ def ev(e, env, funcs=None):
             if key in funcs:
                 if getattr(funcs[key], '_ignores_args', False):
                     return funcs[key]()          # an oracle whose answer does not depend on the (possibly open) arguments
+                args_ = []
+                for a in e.args:
+                    if isinstance(a, ast.Starred):
+                        sv_ = ev(a.value, env, funcs)       # f(*seq): the items of a closed sequence
+                        if not isinstance(sv_, (tuple, list)):
+                            raise NotClosed('starred argument')
+                        args_.extend(sv_)
+                    else:
+                        args_.append(ev(a, env, funcs))
                 if getattr(funcs[key], '_wants_env', False):
-                    return funcs[key](env, *[ev(a, env, funcs) for a in e.args])
-                return funcs[key](*[ev(a, env, funcs) for a in e.args])
+                    return funcs[key](env, *args_)
+                return funcs[key](*args_)
         raise NotClosed('call ' + ast.unparse(e)[:40])
     raise NotClosed(type(e).__name__)
 
